@@ -802,7 +802,7 @@ class Exec:
                 self.stmts(n.orelse)
             return
         ordn = self.loop_ord.get(id(n), -1)
-        spec = self.fv.contract.loops.get(ordn)
+        spec = self.fv.contract.loops.get(ordn) or self.fv.contract.loops.get("*")
         if spec is None and isinstance(it, ObjV) and it.role == "opaque-coll":
             spec = LoopSpec()      # nothing is claimed about a loop over an uninterpreted table
         if spec is None and hasattr(self.theory, "table_of") and (
